@@ -225,6 +225,19 @@ def gen_reservoir():
             m.defined["ideal_alpha_scaled"]["ret"] = "list"
         m.defined["build_matrix"]["ret"] = 3
         P.Tr(m, fn, emit_name=name, kinds=kinds, cut_before=is_solve, ret_names=solve_names(cls)).translate()
+    # ---- the loop AROUND the step: header `for i in range(len(time) - 1)` (or `time.shape[0] - 1`), no else branch, no break / continue /
+    # return inside, level i+1 stored from level i (the store target is checked with the tail below)
+    for cls, nm in (("SinglePhaseReservoir", "single"), ("IdealReservoir", "ideal")):
+        lp = [n for n in m.method(cls, "simulate").body if isinstance(n, ast.For)][0]
+        hdr = f"for {ast.unparse(lp.target)} in {ast.unparse(lp.iter)}"
+        if ast.unparse(lp.target) != "i" or ast.unparse(lp.iter) not in ("range(len(time) - 1)", "range(time.shape[0] - 1)"):
+            raise P.Untranslatable(f"{cls}.simulate: time loop header is `{hdr}`, expected `for i in range(len(time) - 1)`")
+        if lp.orelse or any(isinstance(x, (ast.Break, ast.Continue, ast.Return)) for x in ast.walk(lp)):
+            raise P.Untranslatable(f"{cls}.simulate: the time loop has an else branch or leaves an iteration early (break / continue / return)")
+        if any(isinstance(x, (ast.For, ast.While)) for b_ in lp.body for x in ast.walk(b_)):
+            raise P.Untranslatable(f"{cls}.simulate: a nested loop inside the time loop")
+        m.out.append(f"(* {cls}.simulate: `{hdr}:` - the indices the time loop visits, in order, for a grid of nt points *)\n"
+                     f"Definition {nm}_loop_indices (nt : nat) : list nat := seq 0 (nt - 1).\n")
     # ... and the ideal class's loop body once more with `self.alpha_scaled` left as a parameter: what a user subclass that overrides
     # the documented hook and inherits `simulate` runs (tie to Lib/ReservoirUser.v in Props/C17_user_law.v)
     fn_u = ast.FunctionDef(name="ideal_step_system_u", args=ast.arguments(posonlyargs=[], args=[ast.arg(arg=a) for a in ("alpha_scaled_fn", "dx_squared", "t_cur", "t_next", "prev")],
